@@ -1196,6 +1196,11 @@ class Network:
 
         # Complete expected response futures
         for expected_response in self._expected_response_futures:
+            # Futures that are completed or cancelled remain in the list until
+            # their done callback has run, those should be skipped
+            if expected_response.done():
+                continue
+
             if expected_response.matches(connection, message):
                 expected_response.set_result((connection, message, ))
 
